@@ -1,6 +1,6 @@
 (* C04 — #include resolution and attribution across files.  Statements only. *)
 From Coq Require Import Bool Arith ZArith String List.
-From CBI Require Import Lib.Res Model.C01 Spec.C01 Model.C04 Spec.C04 Proofs.C01 Proofs.C04.
+From CBI Require Import Lib.Res Model.C01 Spec.C01 Model.C04 Spec.C04 Model.C04d Proofs.C01 Proofs.C04 Proofs.C04d Gen.C04_tables.
 Import ListNotations.
 Local Open Scope string_scope.
 Local Open Scope list_scope.
@@ -21,6 +21,26 @@ Proof.
   split; [intros k; apply search_none|]. split; reflexivity.
 Qed.
 Print Assumptions C04_search_order.
+
+(* Which directories are configured, and in which order: with the constants the translator
+   reads from the CURRENT config.py (do -I and -isystem share a dest? which expression is
+   handed to PreprocessorConfiguration?), the list built by parse_args from the -I / -isystem
+   options of ANY command line is the compiler's: every -I directory in command-line order,
+   then every -isystem directory in command-line order.  Together with C04_search_order this
+   fixes the complete search chain. *)
+Theorem C04_dir_order :
+  forall fl : list dflag, configured_M fl = i_dirs fl ++ sys_dirs fl.
+Proof. exact dir_order. Qed.
+Print Assumptions C04_dir_order.
+
+(* one shared list in command-line order (the code before the repair), -isystem first, and
+   dropping the -isystem list are each distinguishable from the compiler's order *)
+Theorem C04_dir_order_variants_refuted :
+  (exists fs fl k, search fs (configured_with true PathsOnly fl) k <> search fs (configured_S fl) k) /\
+  (exists fs fl k, search fs (configured_with false SystemThenPaths fl) k <> search fs (configured_S fl) k) /\
+  (exists fs fl k, search fs (configured_with false PathsOnly fl) k <> search fs (configured_S fl) k).
+Proof. split; [exact cmdline_order_refuted | split; [exact system_first_refuted | exact paths_only_drops_system_refuted]]. Qed.
+Print Assumptions C04_dir_order_variants_refuted.
 
 (* For EVERY history of look-ups (any spellings, any includer directories, both
    forms, in any order) against a fixed file system, each memoised answer equals
